@@ -153,6 +153,8 @@ class Axis(GetSetDelAttrMixin, AbstractAxis):
             return self
         if not isinstance(item, slice) and not isscalar(item):
             item = np.asarray(item) # needed for boolean axes, otherwise problem
+            if item.size == 0 and item.dtype.kind == 'f':
+                item = item.astype(int) # an empty list (asarray made it float64) selects nothing
         values = self.values[item]
         if not isinstance(values, np.ndarray):
             return values # if collapsed to scalar, just return it
@@ -253,6 +255,9 @@ class Axis(GetSetDelAttrMixin, AbstractAxis):
             values = [values(x) for x in self.values]
 
         if values is not None:
+            if np.ndim(values) != 1 or np.size(values) != ax.size:
+                # (a single label would otherwise be broadcast onto the whole axis)
+                raise ValueError("set axis values: size mismatch.\nExpected: {}, got: {}".format(ax.size, np.size(values)))
             ax[:] = values # array-like of size axis.size
         if name is not None:
             ax.name = name
